@@ -170,7 +170,7 @@ PROPS["C11"] = dict(
 META = dict(
     na_default="check not built yet in this session (work in progress; see DESIGN.md §4) - not a claim that the technique cannot apply",
     hooks=dict(guard="verif", enable="go test -tags verif (the driver ./check always builds with -tags verif through -overlay/-modfile, see DESIGN.md §2.2)",
-               baseline_off_cmd="cd /repo && go test -vet=off -count=1 -timeout 25m ./...", source_commits=["9621cb3"], add_only=True),
+               baseline_off_cmd="cd /repo && go test -vet=off -count=1 -timeout 25m ./...", source_commits=["9621cb3", "6acbfa3"], add_only=True),
     engines=[
         dict(name="rapid-harness", path="check", serves_properties=[], kind_free_text="python driver + in-package Go harness files (harness/**/zz_verif_*_test.go) injected with go test -overlay; pgregory.net/rapid v1.3.0 generates and shrinks; plain-JSON replays"),
     ],
